@@ -25,6 +25,18 @@ Theorem C11_lex_esc_refuted : lex_esc_refuted_stmt.
 Proof. exact lex_esc_refuted. Qed.
 Print Assumptions C11_lex_esc_refuted.
 
+Theorem C11_esc_table_digit_refuted : esc_table_digit_refuted_stmt.
+Proof. exact esc_table_digit_refuted. Qed.
+Print Assumptions C11_esc_table_digit_refuted.
+
+Theorem C11_lex_esc_digit_refuted : lex_esc_digit_refuted_stmt.
+Proof. exact lex_esc_digit_refuted. Qed.
+Print Assumptions C11_lex_esc_digit_refuted.
+
+Theorem C11_nonoctal_digit_plain : nonoctal_digit_plain_stmt.
+Proof. exact nonoctal_digit_plain. Qed.
+Print Assumptions C11_nonoctal_digit_plain.
+
 Theorem C11_unescape_iw_refuted : unescape_iw_refuted_stmt.
 Proof. exact unescape_iw_refuted. Qed.
 Print Assumptions C11_unescape_iw_refuted.
